@@ -13,7 +13,9 @@ package catalog
 
 import (
 	"fmt"
+	"reflect"
 	"runtime/debug"
+	"strings"
 
 	"github.com/brutella/hc/accessory"
 	"github.com/brutella/hc/characteristic"
@@ -22,13 +24,14 @@ import (
 
 // CharCtor is one exported constructor of package characteristic.
 type CharCtor struct {
-	Name         string                                  // e.g. "NewBrightness"
-	New          func() *characteristic.Characteristic   // embedded base of a fresh object (nil if the object or a link of the chain is nil)
-	TypeConst    string                                  // value of const Type<Name without New> as declared in the source, "" if none
-	HasTypeConst bool                                    // whether that constant is declared
+	Name         string                                                     // e.g. "NewBrightness"
+	New          func() *characteristic.Characteristic                      // embedded base of a fresh object (nil if the object or a link of the chain is nil)
+	TypeConst    string                                                     // value of const Type<Name without New> as declared in the source, "" if none
+	HasTypeConst bool                                                       // whether that constant is declared
 	Probe        func() (base *characteristic.Characteristic, nilAt string) // like New, and where the chain was nil ("" if nowhere)
-	Chain        string                                  // e.g. "NewBrightness().Int.Characteristic"
-	File         string                                  // e.g. "characteristic/brightness.go"
+	Chain        string                                                     // e.g. "NewBrightness().Int.Characteristic"
+	File         string                                                     // e.g. "characteristic/brightness.go"
+	Raw          func() interface{}                                         // the object exactly as the constructor returns it (concrete type)
 }
 
 // SvcCtor is one exported constructor of package service.
@@ -40,6 +43,7 @@ type SvcCtor struct {
 	Probe        func() (base *service.Service, nilAt string)
 	Chain        string
 	File         string
+	Raw          func() interface{} // the object exactly as the constructor returns it (concrete type)
 }
 
 // AccCtor is one exported constructor of package accessory.  Parameters other than the Info are
@@ -50,7 +54,8 @@ type AccCtor struct {
 	Probe func(info accessory.Info) (base *accessory.Accessory, nilAt string)
 	Chain string
 	File  string
-	Args  string // the argument list the closure passes, e.g. "info, 20, 10, 30, 1"
+	Args  string                                // the argument list the closure passes, e.g. "info, 20, 10, 30, 1"
+	Raw   func(info accessory.Info) interface{} // the object exactly as the constructor returns it (concrete type)
 }
 
 var (
@@ -134,4 +139,45 @@ func ProbeAccessory(c AccCtor, info accessory.Info) (a *accessory.Accessory, nil
 		a, nilAt = nil, ""
 	}
 	return
+}
+
+// NilFields walks the exported fields of v (the concrete object a constructor returned) and returns the paths of
+// pointer fields that are nil, following struct pointers of the hc packages up to a small depth.
+func NilFields(v interface{}) []string {
+	var out []string
+	seen := map[uintptr]bool{}
+	var walk func(rv reflect.Value, path string, depth int)
+	walk = func(rv reflect.Value, path string, depth int) {
+		for rv.Kind() == reflect.Ptr || rv.Kind() == reflect.Interface {
+			if rv.IsNil() {
+				return
+			}
+			if rv.Kind() == reflect.Ptr {
+				if seen[rv.Pointer()] {
+					return
+				}
+				seen[rv.Pointer()] = true
+			}
+			rv = rv.Elem()
+		}
+		if rv.Kind() != reflect.Struct || depth > 4 || !strings.Contains(rv.Type().PkgPath(), "brutella/hc") {
+			return
+		}
+		for i := 0; i < rv.NumField(); i++ {
+			f := rv.Type().Field(i)
+			if f.PkgPath != "" { // unexported
+				continue
+			}
+			fv := rv.Field(i)
+			if fv.Kind() == reflect.Ptr && fv.Type().Elem().Kind() == reflect.Struct {
+				if fv.IsNil() {
+					out = append(out, path+"."+f.Name)
+					continue
+				}
+				walk(fv, path+"."+f.Name, depth+1)
+			}
+		}
+	}
+	walk(reflect.ValueOf(v), "", 0)
+	return out
 }
